@@ -97,7 +97,7 @@ impl Part for MemberRepeat {
     }
     fn cases(&self, tier: Tier) -> usize {
         match tier {
-            Tier::Quick => 24_000,
+            Tier::Quick => 72_000,
             Tier::Thorough => 1_200_000,
         }
     }
@@ -123,7 +123,7 @@ impl Part for TraitRepeat {
     }
     fn cases(&self, tier: Tier) -> usize {
         match tier {
-            Tier::Quick => 16_000,
+            Tier::Quick => 48_000,
             Tier::Thorough => 800_000,
         }
     }
